@@ -44,6 +44,7 @@ unobservable).
 """
 
 import ast
+import re
 
 from .astutil import clone
 
@@ -912,8 +913,9 @@ def inline_new_helpers(fn, resolve, is_new, depth=2):
         direct = {}
         for p_ in params:
             arg = binding[p_]
-            plain = all(isinstance(x, (ast.Name, ast.Attribute, ast.Subscript, ast.Constant, ast.expr_context, ast.Tuple, ast.Slice, ast.UnaryOp, ast.USub))
-                        for x in ast.walk(arg))
+            # substituted in place only when evaluating it later cannot differ (it cannot raise, nothing can re-bind its operands
+            # meanwhile is checked by the normal form); anything else is bound once at the call, like the call does
+            plain = _total_expr(arg) or (isinstance(arg, ast.Attribute) and isinstance(arg.value, ast.Name) and arg.value.id == 'self')
             if plain and (tag + p_) not in rebound:
                 direct[tag + p_] = arg
             else:
@@ -963,6 +965,22 @@ def inline_new_helpers(fn, resolve, is_new, depth=2):
         if isinstance(last, ast.Return):
             body = body[:-1]
             val = last.value if last.value is not None else ast.Constant(value=None)
+            if how == 'assign' and len(target) == 1:
+                # `a, b = helper(..)` with `return x, y` of helper locals: the locals simply carry the caller's names
+                tnames = [t.id for t in (target[0].elts if isinstance(target[0], ast.Tuple) else [target[0]]) if isinstance(t, ast.Name)]
+                vnames = [v.id for v in (val.elts if isinstance(val, ast.Tuple) else [val]) if isinstance(v, ast.Name)]
+                nt = len(target[0].elts) if isinstance(target[0], ast.Tuple) else 1
+                nv = len(val.elts) if isinstance(val, ast.Tuple) else 1
+                if nt == nv == len(tnames) == len(vnames) and len(set(tnames)) == nt and len(set(vnames)) == nv \
+                        and all(v.startswith(tag) for v in vnames) and isinstance(target[0], ast.Tuple) == isinstance(val, ast.Tuple):
+                    used = {n.id for st in body + out for n in ast.walk(st) if isinstance(n, ast.Name)}
+                    if not (set(tnames) & used):
+                        ren = dict(zip(vnames, tnames))
+                        for st in body:
+                            for n in ast.walk(st):
+                                if isinstance(n, ast.Name) and n.id in ren:
+                                    n.id = ren[n.id]
+                        return out + body
             if how == 'assign':
                 tail = [ast.Assign(targets=[clone(t) for t in target], value=val)]
             elif how == 'aug':
@@ -981,6 +999,83 @@ def inline_new_helpers(fn, resolve, is_new, depth=2):
             else:
                 tail = []
         return out + body + tail
+
+    def fuse_contextmanager(w):
+        """with cm(args) [as T]: BODY      with cm a new @contextmanager generator with exactly one `yield [E]` statement:
+        the generator's body with that statement replaced by `[T = E;] BODY`.  (An exception raised in BODY is thrown into the generator at
+        the yield, so handlers and finally clauses around the yield apply to BODY exactly as after the replacement; a generator that
+        swallows the exception and ends would suppress it, as the inlined try/except does.)"""
+        call = w.items[0].context_expr
+        g = resolve(call)
+        if g is None or not is_new(g) or not getattr(g, '_contextmanager', False):
+            return None
+        a = g.args
+        if a.vararg or a.kwarg or a.kwonlyargs or a.posonlyargs:
+            return None
+        ys = [n for n in ast.walk(g) if isinstance(n, (ast.Yield, ast.YieldFrom))]
+        ystmts = [n for n in ast.walk(g) if isinstance(n, ast.Expr) and isinstance(n.value, ast.Yield)]
+        if len(ys) != 1 or len(ystmts) != 1 or any(isinstance(n, ast.Return) for n in ast.walk(g)):
+            return None
+        if any(isinstance(n, (ast.For, ast.While)) and any(x is ystmts[0] for x in ast.walk(n)) for n in ast.walk(g)):
+            return None
+        counter[0] += 1
+        tag = '_c%d_' % counter[0]
+        params = [x.arg for x in a.args]
+        if any(isinstance(x, ast.Starred) for x in call.args) or any(k.arg is None for k in call.keywords) or len(call.args) > len(params):
+            return None
+        binding = dict(zip(params, call.args))
+        for k in call.keywords:
+            if k.arg not in params or k.arg in binding:
+                return None
+            binding[k.arg] = k.value
+        defaults = dict(zip(params[len(params) - len(a.defaults):], a.defaults))
+        for p_ in params:
+            if p_ not in binding:
+                if p_ not in defaults:
+                    return None
+                binding[p_] = defaults[p_]
+        body = [clone(st_) for st_ in g.body]
+        if body and isinstance(body[0], ast.Expr) and isinstance(body[0].value, ast.Constant) and isinstance(body[0].value.value, str):
+            body = body[1:]
+        locs = set(params) | {n.id for st_ in body for n in ast.walk(st_) if isinstance(n, ast.Name) and isinstance(n.ctx, (ast.Store, ast.Del))}
+        for st_ in body:
+            for n in ast.walk(st_):
+                if isinstance(n, ast.Name) and n.id in locs:
+                    n.id = tag + n.id
+        pre = []
+        direct = {}
+        rebound = {n.id for st_ in body for n in ast.walk(st_) if isinstance(n, ast.Name) and isinstance(n.ctx, (ast.Store, ast.Del))}
+        for p_ in params:
+            arg = binding[p_]
+            if _total_expr(arg) and (tag + p_) not in rebound:
+                direct[tag + p_] = arg
+            else:
+                pre.append(ast.Assign(targets=[ast.Name(id=tag + p_, ctx=ast.Store())], value=clone(arg)))
+        if direct:
+            class D(ast.NodeTransformer):
+                def visit_Name(self, n):
+                    if n.id in direct and isinstance(n.ctx, ast.Load):
+                        return ast.copy_location(clone(direct[n.id]), n)
+                    return n
+            body = [D().visit(st_) for st_ in body]
+
+        def put(stmts_):
+            res = []
+            for x in stmts_:
+                if isinstance(x, ast.Expr) and isinstance(x.value, ast.Yield):
+                    if w.items[0].optional_vars is not None:
+                        res.append(ast.Assign(targets=[clone(w.items[0].optional_vars)], value=x.value.value or ast.Constant(value=None)))
+                    res.extend(w.body)
+                    continue
+                for fld in ('body', 'orelse', 'finalbody'):
+                    v = getattr(x, fld, None)
+                    if isinstance(v, list) and v and isinstance(v[0], ast.stmt):
+                        setattr(x, fld, put(v))
+                for h in getattr(x, 'handlers', []) or []:
+                    h.body = put(h.body)
+                res.append(x)
+            return res
+        return pre + put(body)
 
     def fuse_generator(loop, before):
         """for T in gen(args): BODY   with gen a new generator helper whose only yields are statements `yield E`:
@@ -1108,6 +1203,16 @@ def inline_new_helpers(fn, resolve, is_new, depth=2):
             for h in getattr(st, 'handlers', []) or []:
                 h.body, ch = process(h.body, d)
                 changed |= ch
+            if isinstance(st, (ast.With,)) and len(st.items) == 1 and isinstance(st.items[0].context_expr, ast.Call) and d > 0:
+                fused = fuse_contextmanager(st)
+                if fused is not None:
+                    rep2, _ = process(fused, d - 1)
+                    for r_ in rep2:
+                        ast.copy_location(r_, st)
+                        ast.fix_missing_locations(r_)
+                    out.extend(rep2)
+                    changed = True
+                    continue
             if isinstance(st, ast.For) and isinstance(st.iter, ast.Call) and d > 0 and not st.orelse:
                 fused = fuse_generator(st, out)
                 if fused is not None:
@@ -1952,6 +2057,35 @@ def _self_default(fn):
     return changed
 
 
+def _vararg_first(fn):
+    """try: t = args[0]  except IndexError: t = D     ->    t = args[0] if args else D      (args the * parameter: a tuple)"""
+    va = fn.args.vararg.arg if fn.args.vararg else None
+    if not va:
+        return False
+    changed = False
+    for owner in ast.walk(fn):
+        for fld in ('body', 'orelse', 'finalbody'):
+            body = getattr(owner, fld, None)
+            if not (isinstance(body, list) and body and isinstance(body[0], ast.stmt)) or isinstance(owner, ast.Lambda):
+                continue
+            for i, st in enumerate(body):
+                if isinstance(st, ast.Try) and len(st.body) == 1 and len(st.handlers) == 1 and not st.orelse and not st.finalbody \
+                        and isinstance(st.body[0], ast.Assign) and len(st.body[0].targets) == 1 and isinstance(st.body[0].targets[0], ast.Name):
+                    a = st.body[0]
+                    h = st.handlers[0]
+                    if isinstance(a.value, ast.Subscript) and isinstance(a.value.value, ast.Name) and a.value.value.id == va \
+                            and isinstance(a.value.slice, ast.Constant) and a.value.slice.value == 0 \
+                            and isinstance(h.type, ast.Name) and h.type.id == 'IndexError' and h.name is None and len(h.body) == 1 \
+                            and isinstance(h.body[0], ast.Assign) and len(h.body[0].targets) == 1 and ast.dump(h.body[0].targets[0]) == ast.dump(a.targets[0]) \
+                            and _total_expr(h.body[0].value):
+                        new = ast.Assign(targets=[a.targets[0]], value=ast.IfExp(test=ast.Name(id=va, ctx=ast.Load()), body=a.value, orelse=h.body[0].value))
+                        ast.copy_location(new, st)
+                        ast.fix_missing_locations(new)
+                        body[i] = new
+                        changed = True
+    return changed
+
+
 def _split_if(fn):
     """if c: a = A; b = B  else: b = B2      ->     if c: a = A;   if c: b = B else: b = B2
     Every statement of both branches is a plain assignment to one name or self-attribute, c is pure and reads nothing the branches store,
@@ -2487,6 +2621,7 @@ def normal_form(fn, callee_info=None, consts=None):
         _tail_return_dedup(c)
         _return_ifexp(c)
         _list_accumulation(c)
+        _vararg_first(c)
         _same_terminal(c)
         _known_condition(c)
         _split_if(c)
@@ -2552,3 +2687,46 @@ def canon_test(e):
         out = T().visit(out)
         out = _E1(None).visit(out)
     return out
+
+
+def plain_argument_temps(fn):
+    """For the rules' view of a function with inlined helpers: a temporary the inliner made for an argument (`_h3_x = data.shape`) that
+    is a plain reference (names, attributes, subscripts, constants) is read as that reference again, provided the temporary is bound once
+    and none of its operands is re-bound in the function.  (The normal-form comparison keeps the temporaries: evaluating `args[1]` later
+    than the call would is not behaviour-preserving in general; for matching shapes in rules it is what the reader means.)"""
+    c = clone(fn)
+    stores = {}
+    for n in ast.walk(c):
+        if isinstance(n, ast.Name) and isinstance(n.ctx, (ast.Store, ast.Del)):
+            stores[n.id] = stores.get(n.id, 0) + 1
+    params = {a.arg for a in c.args.posonlyargs + c.args.args + c.args.kwonlyargs}
+    mapping = {}
+    drop = set()
+    for n in ast.walk(c):
+        if isinstance(n, ast.Assign) and len(n.targets) == 1 and isinstance(n.targets[0], ast.Name) and re.match(r'_[hg]\d+_', n.targets[0].id) \
+                and stores.get(n.targets[0].id) == 1:
+            v = n.value
+            plain = all(isinstance(x, (ast.Name, ast.Attribute, ast.Subscript, ast.Constant, ast.expr_context, ast.Tuple, ast.Slice, ast.UnaryOp, ast.USub))
+                        for x in ast.walk(v))
+            free = {x.id for x in ast.walk(v) if isinstance(x, ast.Name)}
+            if plain and all(stores.get(x, 0) == 0 or (x in params and stores.get(x, 0) == 0) for x in free):
+                mapping[n.targets[0].id] = v
+                drop.add(id(n))
+    if not mapping:
+        return fn
+
+    class T(ast.NodeTransformer):
+        def visit_Name(self, n):
+            if isinstance(n.ctx, ast.Load) and n.id in mapping:
+                return ast.copy_location(clone(mapping[n.id]), n)
+            return n
+    for n in ast.walk(c):
+        for fld in ('body', 'orelse', 'finalbody'):
+            v = getattr(n, fld, None)
+            if isinstance(v, list) and v and isinstance(v[0], ast.stmt):
+                kept = [st for st in v if id(st) not in drop]
+                if len(kept) != len(v):
+                    setattr(n, fld, kept or [ast.Pass()])
+    T().visit(c)
+    ast.fix_missing_locations(c)
+    return c
